@@ -62,9 +62,13 @@ type Console struct {
 	// Respond, if set, replaces the scripted responder.
 	Respond func(c *Console, written []byte) []byte
 	// Silent disables all automatic replies.
-	Silent                           bool
-	sawOsc66    bool
-	answeredCPR bool
+	Silent bool
+	// VersionString is the XTVERSION reply (default "fake 1.0").
+	VersionString string
+	// InitCol is the (1-based) column the cursor is in when Vaxis starts (0 = column 1).
+	InitCol                          int
+	sawHome                          bool
+	sawOsc66                         bool
 	pend                             []byte // partial escape sequence carried between writes (not needed: vaxis writes whole sequences)
 	RawCalls, ResetCalls, CloseCalls int
 }
@@ -151,16 +155,17 @@ func (c *Console) script(p []byte) []byte {
 			c.sawOsc66 = true
 		case strings.HasPrefix(rest, "\x1b[H"):
 			c.sawOsc66 = false
+			c.sawHome = true
 		case strings.HasPrefix(rest, "\x1b[6n"):
-			// NB: vaxis writes this DSR directly to the console while the OSC 66 probe is still
-			// in its write buffer, so the query arrives *before* the probe. A terminal on which
-			// Vaxis detects explicit-width support is therefore one whose cursor happens to be
-			// in column 2 at that moment; ExplicitWidth reproduces that.
+			// the cursor is in column 2 after `CSI H` + `OSC 66 ; w=1 ; " "` iff the terminal
+			// implements explicit width
 			col := 1
-			if c.Caps.ExplicitWidth && !c.answeredCPR {
+			if c.sawOsc66 && c.Caps.ExplicitWidth {
 				col = 2
+			} else if !c.sawOsc66 && !c.sawHome && c.InitCol > 0 {
+				col = c.InitCol // nothing moved the cursor yet: it is where the shell left it
 			}
-			c.answeredCPR = true
+			c.sawOsc66 = false
 			fmt.Fprintf(&out, "\x1b[1;%dR", col)
 		case strings.HasPrefix(rest, "\x1b[c"):
 			if !c.Caps.NoDA1 {
@@ -192,7 +197,11 @@ func (c *Console) script(p []byte) []byte {
 			}
 		case strings.HasPrefix(rest, "\x1b[>0q"):
 			if c.Caps.XTVersion {
-				out.WriteString("\x1bP>|fake 1.0\x1b\\")
+				v := c.VersionString
+				if v == "" {
+					v = "fake 1.0"
+				}
+				out.WriteString("\x1bP>|" + v + "\x1b\\")
 			}
 		case strings.HasPrefix(rest, "\x1b[?u"):
 			if c.Caps.KittyKeyboard {
